@@ -54,6 +54,18 @@ def gen (n : Nat) : G (List String) := do
     -- (c) NetFlow v5 with count 65535 and a few records
     let v5 ← v5Datagram
     out := out ++ [allocLine "nf" e clock (overwrite v5 2 2 65535) 0]
+    -- (e) many small sets, each claiming the largest count a 16-bit field can hold: the budget is per datagram,
+    --     not per set (truncated template / options-template sets of 8 or 10 bytes, up to the 9000-byte buffer)
+    let ver2 ← pick [9, 10]
+    let nsets ← pick [30, 200, 800, 1100]
+    let kind ← below 3
+    let setId := if ver2 = 9 then (if kind = 0 then 0 else 1) else (if kind = 0 then 2 else 3)
+    let one : Bytes := if kind = 0 then encBE 2 setId ++ encBE 2 8 ++ encBE 2 (256 + i % 100) ++ encBE 2 65535
+      else encBE 2 setId ++ encBE 2 10 ++ encBE 2 (256 + i % 100) ++ encBE 2 65535 ++ encBE 2 (if kind = 1 then 65535 else 1)
+    let hdr : Bytes := if ver2 = 9 then encBE 2 9 ++ encBE 2 nsets ++ encBE 4 1 ++ encBE 4 2 ++ encBE 4 3 ++ encBE 4 4
+      else encBE 2 10 ++ encBE 2 (16 + nsets * one.length) ++ encBE 4 2 ++ encBE 4 3 ++ encBE 4 4
+    let many : Bytes := (hdr ++ (List.replicate nsets one).flatten).take 9000
+    out := out ++ [allocLine pipe e clock many 0]
     -- (d) degenerate templates
     out := out ++ [allocLine "nf" e clock (← C01.degenerate 10) 1, allocLine "nf" e clock (← C01.degenerate 9) 1]
   pure out
